@@ -559,8 +559,9 @@ add('C15', 'breaker', 'predicates-last-wins', [(P, '''    for predicate, fn in _
         if predicate(value):
             return fn(value, ctx)
     return repr(value)''')], 'C15.f')
-add('C15', 'breaker', 'promotion-copies-not-moves', [(P, '''                    register_pretty(supertype)(deferred_dispatch)
-                    _DEFERRED_DISPATCH_BY_NAME.pop(deferred_key, None)''', '''                    register_pretty(supertype)(deferred_dispatch)''')], 'C15.d')
+# the class registration itself drops the pending entry for that class, so leaving out the second pop changes nothing
+add('C15', 'twin', 'promotion-without-second-pop', [(P, '''                    register_pretty(supertype)(deferred_dispatch)
+                    _DEFERRED_DISPATCH_BY_NAME.pop(deferred_key, None)''', '''                    register_pretty(supertype)(deferred_dispatch)''')])
 add('C15', 'breaker', 'deferred-key-name-only', [(P, "return type.__module__ + '.' + type.__qualname__", "return type.__module__ + '.' + type.__name__")], 'C15.d')
 add('C15', 'breaker', 'deferred-setdefault', [(P, '                _DEFERRED_DISPATCH_BY_NAME[type] = fn', '                _DEFERRED_DISPATCH_BY_NAME.setdefault(type, fn)')], 'C15')
 add('C15', 'breaker', 'final-answer-equality-on-registry', [(P, 'return pretty_dispatch.dispatch(type) is not _BASE_DISPATCH', 'return pretty_dispatch.dispatch(type) is not _repr_pretty')], 'C15.e')
